@@ -96,6 +96,53 @@ def sat(f: Formula, constraints: Formula = TRUE) -> bool:
     return res
 
 
+def cone(path, goal_atoms: set[str]) -> list[Formula]:
+    """Conjuncts of `path` that share atoms (transitively) with `goal_atoms`.  The other conjuncts are over disjoint atoms and
+    cannot influence the satisfiability of path AND goal as long as the path itself is satisfiable (which every fork checks)."""
+    items = [(c, atoms_of(c)) for c in path]
+    keep: list[Formula] = []
+    atoms = set(goal_atoms)
+    for a in list(atoms):
+        if a.endswith(" is None"):
+            atoms.add(f"bool({a[: -len(' is None')]})")
+        elif a.startswith("bool(") and a.endswith(")"):
+            atoms.add(f"{a[5:-1]} is None")
+    changed = True
+    rest = items
+    while changed:
+        changed = False
+        nxt = []
+        for c, at in rest:
+            if not at:
+                if c == FALSE:
+                    keep.append(c)
+                continue
+            if at & atoms:
+                keep.append(c)
+                for a in at:
+                    atoms.add(a)
+                    if a.endswith(" is None"):
+                        atoms.add(f"bool({a[: -len(' is None')]})")
+                    elif a.startswith("bool(") and a.endswith(")"):
+                        atoms.add(f"{a[5:-1]} is None")
+                changed = True
+            else:
+                nxt.append((c, at))
+        rest = nxt
+    return keep
+
+
+def sat_path(path, goal: Formula) -> bool:
+    """sat(AND(path) AND goal) for a path that is known to be satisfiable on its own."""
+    if goal == FALSE or any(c == FALSE for c in path):
+        return False
+    return sat(f_and([*cone(path, atoms_of(goal)), goal]))
+
+
+def implies_path(path, goal: Formula) -> bool:
+    return not sat_path(path, f_not(goal))
+
+
 def implies(a: Formula, b: Formula, constraints: Formula = TRUE) -> bool:
     return not sat(f_and([a, f_not(b)]), constraints)
 
@@ -627,7 +674,7 @@ class Sym:
         rests = [conj(s.path[n:]) for s, _c in states]
         whole = f_or(rests)
         path = list(base.path)
-        if whole != TRUE and not implies(TRUE, whole):
+        if whole != TRUE and sat(f_not(whole)):
             path.append(whole)
         out = State({}, {}, path)
         for attr in ("vars", "store"):
@@ -1667,16 +1714,15 @@ class Sym:
 
     def _s_Assert(self, s, st, ctx):
         c = self.truth(self.eval(s.test, st, ctx), st)
-        if sat(f_and([st.cond, f_not(c)])):
+        if sat_path(st.path, f_not(c)):
             self.outcomes.append(Outcome("raise", tuple(st.path) + (f_not(c),), "AssertionError", None, ctx, s, dict(st.store), tuple(self.loops)))
         st.path.append(c)
         return st
 
     def _s_If(self, s, st, ctx):
         c = self.truth(self.eval(s.test, st, ctx), st)
-        base_cond = st.cond
-        can_t = sat(f_and([base_cond, c]))
-        can_f = sat(f_and([base_cond, f_not(c)]))
+        can_t = sat_path(st.path, c)
+        can_f = sat_path(st.path, f_not(c))
         res = []
         if can_t:
             res.append((self.block(s.body, st.fork(c), ctx), c))
@@ -1767,7 +1813,7 @@ class Sym:
                 tv = self.eval(test, inner, ctx)
                 lc.test_val = tv
                 inner.path.append(self.truth(tv, inner))
-            if sat(inner.cond):
+            if sat_path(inner.path[:-1], inner.path[-1]) if inner.path else True:
                 _end, breaks = self._iteration(body, inner, ctx)
             else:
                 breaks = []
@@ -1825,7 +1871,7 @@ class Sym:
         cur = st
         peeled = 0
         # peel iterations while the test is known to hold (a worklist that starts with a known element)
-        while peeled < 2 and c != FALSE and (c == TRUE or implies(cur.cond, c)) and sat(cur.cond):
+        while peeled < 2 and c != FALSE and (c == TRUE or implies_path(cur.path, c)):
             peeled += 1
             end, breaks = self._iteration(s.body, cur, ctx)
             if breaks or end is None:
@@ -1837,7 +1883,7 @@ class Sym:
             cur = end
             tv = self.eval(s.test, cur, ctx)
             c = self.truth(tv, cur)
-        if c == FALSE or not sat(f_and([cur.cond, c])):
+        if c == FALSE or not sat_path(cur.path, c):
             return self.block(s.orelse, cur, ctx) if s.orelse else cur
         after = self._abstract_loop(s, s.body, cur, ctx, None, None, "while", s.test)
         if s.orelse:
